@@ -145,8 +145,36 @@ func init() {
 			}
 		}
 		for i := 0; i < c.N; i++ {
-			switch i % 3 {
-			case 0, 1:
+			switch i % 8 {
+			case 3:
+				// package manager: Apply(revision, MustBeControllableBy(package)); history GC never deletes a foreign revision
+				ps := c14Gen(c.Rng, c.Tier)
+				po, pm, k := c14Run(&ps)
+				c.Emit(c02Scn{"C14", ps}, po, c02Remap(pm), "pkgmanager/"+k)
+			case 4:
+				// establisher: objects controlled by another package / owner are never taken over
+				es, k := c16Gen(c.Rng)
+				eo, em := c16Run(&es)
+				c.Emit(c02Scn{"C16", es}, eo, c02Remap(em), "establisher/"+k)
+			case 5:
+				// RBAC manager: roles and bindings controlled by someone else
+				var rs c18Scn
+				if c.Rng.Bool() {
+					rs = c18GenReconcile(c.Rng)
+				} else if c.Rng.Bool() {
+					rs = c18GenXRD(c.Rng)
+				} else {
+					rs = c18GenBinding(c.Rng)
+				}
+				c18Normalize(&rs)
+				ro, rm := c18Run(rs)
+				c.Emit(c02Scn{"C18", rs}, ro, c02Remap(rm), "rbac/"+c18Cls(rs, ro))
+			case 6:
+				// claim -> XR binding: an XR bound to another claim is never written or deleted
+				cs := c06Gen(c.Rng, c.Tier)
+				co, cm := c06Run(&cs)
+				c.Emit(c02Scn{"C06", cs}, co, c02Remap(cm), "claim/"+c06Cls(&cs, co))
+			case 0, 1, 7:
 				s := c02GenXW(c.Rng)
 				obs, mons := c02RunXW(&s)
 				nf := 0
@@ -172,7 +200,15 @@ func c02Remap(mons []Mon) []Mon {
 		switch m.Sig {
 		case "C09:wrote-foreign-secret":
 			out = append(out, Mon{Sig: "C02:secret-foreign-written", Why: m.Why})
-		case "C09:panic":
+		case "C14:gc-foreign", "C14:created-non-current":
+			out = append(out, Mon{Sig: "C02:pkgmanager-" + m.Sig[4:], Why: m.Why})
+		case "C16:established-despite-blocked", "C16:partial-establish", "C16:two-controllers":
+			out = append(out, Mon{Sig: "C02:establisher-" + m.Sig[4:], Why: m.Why})
+		case "C18:foreign-role-touched", "C18:foreign-binding-touched", "C18:role-wrong-owner":
+			out = append(out, Mon{Sig: "C02:rbac-" + m.Sig[4:], Why: m.Why})
+		case "C06:hijack":
+			out = append(out, Mon{Sig: "C02:claim-hijack", Why: m.Why})
+		case "C09:panic", "C14:panic", "C16:panic", "C18:panic", "C06:panic":
 			out = append(out, Mon{Sig: "C02:panic", Why: m.Why})
 		}
 	}
